@@ -606,3 +606,24 @@ def nesting(depth):
     yield "/*" * d
     yield "[{" * d
     yield "class A : " + "B<" * d + "1" + ">" * d + ";"
+
+
+DEEP_OPENERS = [("[", "]", "1"), ("(op ", ")", "a"), ("!add(", ")", "1"), ("A<", ">", "1"), ("{", "}", "1"), ("!cond(", ": 1)", "1"),
+                ("list<", ">", None)]
+DEEP_TAILS = ["; }\nclass Z { int z = 1; } // tail comment\n#ifdef X\nq q\n#else\ndef t;\n#endif\n/* end */\n",
+              "\n; def u : V<1>; \"s\" é\n"]
+
+
+def deep_with_tail(depths, tails=2):
+    """values / types nested `d` deep (closed and unclosed) FOLLOWED by more text: statements, comments, directive
+    regions, an error token.  Whatever a parser does at some nesting limit, the text after it must stay in the tree."""
+    for d in depths:
+        for (o, c, atom) in DEEP_OPENERS:
+            for tail in DEEP_TAILS[:tails]:
+                if atom is None:
+                    yield "def x { " + o * d + "int" + c * d + " v" + tail
+                    yield "def x { " + o * d + "int" + c * (d // 2) + tail
+                else:
+                    yield "def x { int v = " + o * d + atom + c * d + tail
+                    yield "def x { int v = " + o * d + atom + c * (d // 2) + tail
+                    yield "def x { int v = " + o * d + tail
